@@ -13,7 +13,7 @@ STATEMENT = ("for every date t in [1900, 2300): dt(t), dt of its date, of its (y
              "ymd() drops the time of day; an unambiguous (day > 12) string in the other dialect raises ValueError; dt(y,m,d) with month or "
              "day out of range is the first day of the normalised month plus d-1 days")
 LEAN_FILES = ['Basic', 'Greg', 'GenTypes', 'Bump', 'DateParse', 'NpDate', 'DateParseDriver', 'PygGen', 'Sweep', 'GregLemmas', 'GregPeriod', 'BumpLemmas',
-              'MonthLemmas', 'TokenLemmas', 'DateLemmas', 'DateStrLemmas', 'DateTextLemmas', 'NpDateLemmas', 'MonthNameLemmas', 'MonthNameStrLemmas', 'SqueezeLemmas', 'AmbiguityLemmas', 'SlashesLemmas', 'DialectLemmas', 'C04']
+              'MonthLemmas', 'TokenLemmas', 'DateLemmas', 'DateStrLemmas', 'DateTextLemmas', 'NpDateLemmas', 'MonthNameLemmas', 'MonthNameStrLemmas', 'SqueezeLemmas', 'AmbiguityLemmas', 'SlashesLemmas', 'DialectLemmas', 'IsoAnyLemmas', 'C04']
 GENERATED = ['PygGen.Ym', 'PygGen.Num2dt', 'PygGen.Tables', 'PygGen.Np2dt', 'PygGen.DuMonths']
 RULE = ('distinct protocol lines (one spelling of one instant, or one (y, m, d) overflow triple, or one translator-grid integer) on which '
         'dt()/ymd()/dt2str() returned a value')
@@ -224,6 +224,24 @@ def spellings(t, rng, full):
     out.append(('iso', L('str', rng.choice(['uk', 'us']), s_(t.isoformat())), t))
     out.append(('iso-space', L('str', rng.choice(['uk', 'us']), s_(t.isoformat(' '))), t))
     out.append(('yyyymmdd-str', L('str', rng.choice(['uk', 'us']), s_(day.strftime('%Y%m%d'))), day))
+    # year-first text with ANY separator of the quantifier ({-,/,.,blank}; now and then two different ones), month / day padded or not,
+    # with or without a time text (round k3: model arm + theorems `iso_any_sep`; until then the model answered bad-op)
+    for _ in range(6 if full else 2):
+        s1 = rng.choice(SEPS)
+        # two different separators only when neither is the '.': next to another separator a single '.' is a decimal point for dateutil
+        # ('1940 08.03' -> 30 August, '1940-8.03' raises); not an ISO spelling, outside the clause (docs/notes/C04.md, round k3)
+        s2 = s1 if rng.random() < 0.7 or s1 == '.' else rng.choice([x for x in SEPS if x != '.'])
+        fm, fd = rng.choice(['%02d', '%d']), rng.choice(['%02d', '%d'])
+        txt = ('%04d' + s1 + fm + s2 + fd) % (t.year, t.month, t.day)
+        if rng.random() < 0.5:
+            suffix, exp = time_suffix(rng, t)
+        else:
+            suffix, exp = '', day
+        if rng.random() < 0.15:
+            txt = wrap_ws(rng, txt + suffix)
+            suffix = ''
+        out.append(('iso-anysep' + ('-mix' if s1 != s2 else '') + ('-time' if exp is not day else ''),
+                    L('str', rng.choice(['uk', 'us']), s_(txt + suffix)), exp))
     out.append(('dt2str', L('rt', enc(t)), t))
     out.append(('dt2str-day', L('rt', enc(day)), day))
     combos = [(sep, pad) for sep in SEPS for pad in (True, False)]
@@ -371,8 +389,28 @@ def _generate(rng, tier):
             for m in ms:
                 for d in ds:
                     yield dict(tag='overflow-all', lines=[L('ymd', 'I:%d' % y, 'I:%d' % m, 'I:%d' % d)])
+    # ---- the parts as numpy integers (an integer read from an array is a numpy integer; review4 v3 §C04.2-2, defect C04-D7): each part a
+    # python int or np.int8..int64, in the narrowest-to-widest types that hold it; months in [-36, 48], days in [-400, 400] with the int8 limits
+    def kinds_for(v):
+        ks = ['int', 'int64', 'int32', 'int16'] + (['int8', 'int8'] if -128 <= v <= 127 else [])
+        return ks
+    for _ in range(1200 if quick else 30000):
+        y = rng.choice([1900, 2000, 2299, rng.randint(1900, 2299)])
+        m = rng.choice(ms) if rng.random() < 0.8 else rng.choice([-36, -12, -11, 0, 1, 12, 13, 24, 48])
+        d = rng.choice(ds) if rng.random() < 0.6 else rng.choice([-400, -129, -128, -127, -1, 0, 1, 28, 29, 31, 32, 126, 127, 128, 366, 400])
+        ky, km, kd = rng.choice(kinds_for(y)), rng.choice(kinds_for(m)), rng.choice(kinds_for(d))
+        if (ky, km, kd) == ('int', 'int', 'int'):
+            km = 'int8'
+        inside = 1 <= m <= 12 and 1 <= d <= 28
+        if rng.random() < 0.15:
+            h, mi, sec = rng.randint(-30, 50), rng.randint(-70, 127), rng.randint(-100, 127)
+            yield dict(tag='overflow-hms-np', lines=[L('npymd', s_(ky), s_(km), s_(kd), 'I:%d' % y, 'I:%d' % m, 'I:%d' % d, 'I:%d' % h, 'I:%d' % mi, 'I:%d' % sec)])
+        else:
+            yield dict(tag='parts-np' if inside else 'overflow-np', lines=[L('npymd', s_(ky), s_(km), s_(kd), 'I:%d' % y, 'I:%d' % m, 'I:%d' % d)])
     # ---- impossible dates and texts outside the claim
     for s in ['31.04.2000', '29.02.1900', '30/02/2000', '2/30/2000', '14/13/2002', '13/14/2002', '2000-13-01', '2000-02-30', '20000230', '0/1/2000', '1/0/2000',
+              # year-first texts are never swapped (`iso_any_sep_impossible`): month 13 / 30 Feb with the other separators, unpadded
+              '2000/13/01', '2000.13.01', '2000 13 01', '2000/02/30', '2000.2.30', '2000 2 30', '1900/2/29', '2000/0/1', '2000.1.0', '2000/13/1 10:30',
               # impossible times of day: dateutil raises (hour must be in 0..23, ...), never a shifted instant
               '13/01/2000 25:00:00', '13/01/2000 24:00:00', '2/1/2000 10:61:00', '02.01.2000 10:59:60', '2000-01-13T10:61', '2000-01-13 24:00:00',
               '2000-01-13T23:59:60.000001', '01/13/2000 23:60']:
@@ -425,6 +463,17 @@ def call(op, args, fn):
         return as_plain(fn(c))
     if op in ('ym', 'ymd'):
         return as_plain(fn(*ints(args)))
+    if op == 'npymd':
+        kinds = [proto.dec_cell(a) for a in args[:3]]
+        vals = ints(args[3:])
+        kinds = kinds + [kinds[2]] * (len(vals) - 3)          # h, mi, s: the type of the day
+        parts = []
+        for k, v in zip(kinds, vals):
+            c = v if k == 'int' else getattr(np, k)(v)
+            if int(c) != v:
+                raise proto.Unencodable('%s does not hold %r' % (k, v))
+            parts.append(c)
+        return as_plain(fn(*parts))
     if op == 'ts':
         return as_plain(fn(proto.dec_cell(args[0])))
     if op == 'date':
@@ -525,6 +574,14 @@ def laws(rng, tier, ctx):
             ('law-ymd', L('ymd/ts', enc(tu)), safe(ymd, tu), day),
             ('law-ymd', L('ymd/str', 'uk', s_(tu.isoformat())), safe(ymd, tu.isoformat()), day),
         ]
+        # the ISO clause with the other separators of the quantifier, month / day padded or not (round k3)
+        isep = rng.choice(SEPS)
+        iso_any = ('%04d' + isep + rng.choice(['%02d', '%d']) + isep + rng.choice(['%02d', '%d'])) % (t.year, t.month, t.day)
+        idia = rng.choice(['uk', 'us', 'UK', 'US'])
+        checks.append(('law-iso-anysep', L('str', idia, s_(iso_any)), safe(dt, iso_any, dialect=idia), day))
+        iso_any_t = iso_any + t.strftime(' %H:%M:%S')
+        checks.append(('law-iso-anysep', L('str', idia, s_(iso_any_t)), safe(dt, iso_any_t, dialect=idia), t))
+        checks.append(('law-ymd-iso-anysep', L('ymd/str', idia, s_(iso_any_t)), safe(ymd, iso_any_t, dialect=idia), day))
         sep, pad = rng.choice(SEPS), rng.random() < 0.5
         uks, uss = dialect_str(t, True, sep, pad, True), dialect_str(t, False, sep, pad, True)
         checks.append(('law-uk', L('str', 'uk', s_(uks)), safe(dt, uks), t))
@@ -597,6 +654,19 @@ def laws(rng, tier, ctx):
         got, want = safe(dt, y, m, d), ref_overflow(y, m, d)
         if got != want:
             yield bad('law-overflow', L('ymd', 'I:%d' % y, 'I:%d' % m, 'I:%d' % d), 'dt(%d,%d,%d) = %s, first of the normalised month plus d-1 days is %s' % (y, m, d, got, want))
+    # the same clause with the parts held by numpy integers of any width that holds them (defect C04-D7)
+    for _ in range(1500 if quick else 30000):
+        y, m = rng.randint(1900, 2299), rng.randint(-36, 48)
+        d = rng.randint(-400, 400) if rng.random() < 0.7 else rng.choice([-128, -127, 127])
+        ks = []
+        for v in (y, m, d):
+            ks.append(rng.choice(['int', 'int64', 'int32', 'int16'] + (['int8', 'int8'] if -128 <= v <= 127 else [])))
+        parts = [v if k == 'int' else getattr(np, k)(v) for k, v in zip(ks, (y, m, d))]
+        count += 1
+        got, want = safe(dt, *parts), ref_overflow(y, m, d)
+        if got != want:
+            yield bad('law-overflow-np', L('npymd', s_(ks[0]), s_(ks[1]), s_(ks[2]), 'I:%d' % y, 'I:%d' % m, 'I:%d' % d),
+                      'dt(%s(%d), %s(%d), %s(%d)) = %s, first of the normalised month plus d-1 days is %s' % (ks[0], y, ks[1], m, ks[2], d, got, want))
     yield count
 
 
